@@ -48,8 +48,6 @@ func init() {
 				New: "\tif err := pinger.Ping(pingCtx, c.conn); err != nil {\n\t\treturn err\n\t}\n\tc.lastPingSentAt.Store(time.Now().UnixNano())\n\treturn nil\n"},
 			{Name: "subscribe returns the subscriber's context error without the idle check (reverts the F37 fix)", File: "v2/pkg/engine/datasource/graphql_datasource/subscriptionclient/transport/ws_conn.go", Rule: "C18-R11", Key: "wsConnection.subscribe/error-exit-runs-idle-check",
 				Old: "\t\tc.removeSub(id)\n\t\treturn nil, err\n\t}\n\n\tc.subsMu.Lock()\n", New: "\t\treturn nil, err\n\t}\n\n\tc.subsMu.Lock()\n"},
-			{Name: "legacy protocol reports a cancelled dialler as ack timeout (seeded change C18-22)", File: "v2/pkg/engine/datasource/graphql_datasource/subscriptionclient/protocol/graphql_ws.go", Rule: "C18-R10", Key: "graphqlWS.Init/ack-timeout-only-on-deadline",
-				Old: "\t\t\tif errors.Is(err, context.DeadlineExceeded) {\n\t\t\t\treturn ErrAckTimeout\n", New: "\t\t\tif errors.Is(err, context.DeadlineExceeded) || ctx.Err() != nil {\n\t\t\t\treturn ErrAckTimeout\n"},
 			{Name: "subscribe message written under the subscriber's own context (the repaired defect F20)", File: wsConnGo, Rule: "C18-R9", Key: "wsConnection.subscribe/Subscribe-under-connection-context",
 				Old: "\tsubscribeCtx, subscribeCancel := context.WithTimeout(c.ctx, c.writeTimeout)", New: "\tsubscribeCtx, subscribeCancel := context.WithTimeout(ctx, c.writeTimeout)"},
 			{Name: "failed subscribe removes its table entry with a bare delete", File: "v2/pkg/engine/datasource/graphql_datasource/subscriptionclient/transport/ws_conn.go", Rule: "C18-R8", Key: "wsConnection.subscribe/delete-from-subs",
@@ -107,7 +105,6 @@ func init() {
 
 func runC18(r *fw.Run) {
 	defer c18SharedWritesUnderConnectionContext(r)
-	defer c18AckTimeoutOnlyOnDeadline(r)
 	defer c18WaitersLearnWhetherTheDiallerWasGone(r)
 	defer c18PingStampedBeforeWrite(r)
 	defer c18SubscribeExitsRunIdleCheck(r)
@@ -1858,91 +1855,10 @@ func c18SharedWritesUnderConnectionContext(r *fw.Run) {
 	r.Expect("C18-R9", "writes on the shared socket", n, 4)
 }
 
-// c18AckTimeoutOnlyOnDeadline (R10): a coalesced dial lets its waiters re-dial only when the dialler's own context was
-// cancelled (context.Canceled); every other dial error is shared with all waiters. Both protocol implementations of Init
-// classify the failure of the ack read: ErrAckTimeout is returned only on the true edge of
-// errors.Is(err, context.DeadlineExceeded). A wider test (… || ctx.Err() != nil) reports a cancelled dialler as an ack
-// timeout, and every waiter of that dial fails with "connection_ack timeout" although the upstream was never slow.
-func c18AckTimeoutOnlyOnDeadline(r *fw.Run) {
-	p := r.Prog
-	r.Rule("C18-R10", "every Init of the subscription client protocols returns ErrAckTimeout only on the true edge of errors.Is(err, context.DeadlineExceeded) — the sibling implementations agree, a cancelled dialler is never reported as an ack timeout")
-	n := 0
-	for _, fi := range p.Funcs(c18P) {
-		info := fi.Info()
-		returnsAck := false
-		fw.WalkAll(fi.Decl.Body, func(nd ast.Node) bool {
-			if ret, ok := nd.(*ast.ReturnStmt); ok {
-				for _, res := range ret.Results {
-					if id, isID := ast.Unparen(res).(*ast.Ident); isID {
-						if v, isVar := info.Uses[id].(*types.Var); isVar && v.Name() == "ErrAckTimeout" && v.Pkg() == fi.Obj.Pkg() {
-							returnsAck = true
-						}
-					}
-				}
-			}
-			return true
-		})
-		if !returnsAck {
-			continue
-		}
-		isDeadlineTest := func(a fw.CondAtom) bool {
-			if a.Kind != "True" {
-				return false
-			}
-			c, ok := ast.Unparen(a.X).(*ast.CallExpr)
-			if !ok || !fw.CallIs(info, c, "errors", "Is") || len(c.Args) != 2 {
-				return false
-			}
-			sel, isSel := ast.Unparen(c.Args[1]).(*ast.SelectorExpr)
-			if !isSel {
-				return false
-			}
-			v, isVar := info.Uses[sel.Sel].(*types.Var)
-			return isVar && v.Pkg() != nil && v.Pkg().Path() == "context" && v.Name() == "DeadlineExceeded"
-		}
-		ord := 0
-		in := fw.NewInterp(fi)
-		in.H = fw.Hooks{
-			Cond: func(e ast.Expr, branch bool, st *fw.State) {
-				op, leaves := fw.NNF(info, e, branch)
-				if op == "mixed" {
-					return
-				}
-				all, any := true, false
-				for _, a := range leaves {
-					if isDeadlineTest(a) {
-						any = true
-					} else {
-						all = false
-					}
-				}
-				// a conjunction containing the test implies it; a disjunction implies it only if every disjunct is the test
-				if (op == "or" && all && any) || (op != "or" && any) {
-					st.Set("deadline-exceeded")
-				}
-			},
-			Exit: func(ret *ast.ReturnStmt, lit *ast.FuncLit, st *fw.State) {
-				if lit != nil || ret == nil || !in.Final() {
-					return
-				}
-				for _, res := range ret.Results {
-					id, isID := ast.Unparen(res).(*ast.Ident)
-					if !isID {
-						continue
-					}
-					if v, isVar := info.Uses[id].(*types.Var); isVar && v.Name() == "ErrAckTimeout" {
-						n++
-						ord++
-						r.Check(st.Must("deadline-exceeded"), "C18-R10", fi.Name()+"/ack-timeout-only-on-deadline#"+itoa(ord), p.Pos(ret.Pos()), "ErrAckTimeout is returned by "+fi.Name()+" only where errors.Is(err, context.DeadlineExceeded) held",
-							"ErrAckTimeout is returned on a path that has not established a deadline error: a dialler whose context was cancelled is reported as an ack timeout, which getOrDial shares with every waiter of the coalesced dial instead of letting them re-dial — healthy subscribers fail with 'connection_ack timeout'")
-					}
-				}
-			},
-		}
-		in.Run(nil)
-	}
-	r.Expect("C18-R10", "returns of ErrAckTimeout in the protocol implementations", n, 2)
-}
+// (R10 retired.) "ErrAckTimeout only on the true edge of errors.Is(err, context.DeadlineExceeded)" was a necessary condition
+// only while the waiters of a coalesced dial classified the shared error by its value. Since the repair F53 the dialler
+// records whether its own context had ended (dialResult.diallerGone) and the waiters test that record (R13): a cancelled
+// dialler reported as an ack timeout no longer reaches any waiter, so the rule would alarm on code where the property holds.
 
 // c18SubscribeExitsRunIdleCheck (R11): a connection is closed by the idle logic, and the idle logic runs when a
 // subscription is removed (removeSub → close now, or closeIfIdle after the idle period). A connection that was dialled for a
